@@ -19,6 +19,8 @@ def concretise(rng, hist, tier, counters):
     c['prefill'] = rng.choice([{}, {'7': 32}, {'7': 32}, {'7': 31}, {'0': 3, '7': 33}, {'0': 31, '7': 34}])
     c['bg'] = rng.random() < 0.25
     c['images'] = rng.random() < (0.1 if tier == 'quick' else 0.4)
+    if 'delete' in acts:
+        c['images'] = True    # a delete must be durable: look at the disk right after it
     c['sweep'] = False
     c['sweepSample'] = 6 if tier == 'quick' else 40
     if 'crashcreate' in acts and 'roll' not in acts and counters['sweep'] < counters['sweep_budget']:
@@ -36,19 +38,19 @@ def run(ctx):
     tier = ctx.tier
     quick = tier == 'quick'
     # 1. the design against the contract, all interleavings incl. the compactor's two critical sections (VIEW hides hist)
-    r = ctx.tlc_must_pass('SeriesFile', f'SeriesFile.MC_{tier}.cfg', timeout=1500, coverage=True, workers=8)
+    r = ctx.tlc_must_pass('SeriesFile', f'SeriesFile.MC_{tier}.cfg', timeout=1500, coverage=True)
     ctx.check_coverage(r, ACTIONS)
     # 2. F7 at model level: with recovery as found (zero-length key accepted) a torn entry that kept 7 id bytes repoints a
     #    live id; with "empty key ends the log" the same configuration is clean.  A lead only - the sweep on the real
     #    code (step 4/5) decides.
-    lead = ctx.tlc('SeriesFile', 'SeriesFile.F7_asfound.cfg', timeout=300, workers=2)
-    rep = ctx.tlc('SeriesFile', 'SeriesFile.F7_repaired.cfg', timeout=300, workers=2)
+    lead = ctx.tlc('SeriesFile', 'SeriesFile.F7_asfound.cfg', timeout=300)
+    rep = ctx.tlc('SeriesFile', 'SeriesFile.F7_repaired.cfg', timeout=300)
     if lead.timed_out or rep.timed_out or lead.violated != 'Agree' or not rep.ok:
         raise vlib.Inconclusive(f'F7 model-level configs behave unexpectedly: asfound violated={lead.violated} repaired ok={rep.ok}')
     ctx.extra_cov['model_level_lead_F7'] = {'as_found_violates': lead.violated, 'with_empty_key_ends_log': 'clean',
                                             'trace_len': len(lead.trace)}
     # 3. histories: every history up to the bound (dump) + longer random ones (simulate)
-    g = ctx.tlc_must_pass('SeriesFile', f'SeriesFile.Gen_{tier}.cfg', timeout=1500, dump=True, coverage=True, workers=8)
+    g = ctx.tlc_must_pass('SeriesFile', f'SeriesFile.Gen_{tier}.cfg', timeout=1500, dump=True, coverage=True)
     ctx.check_coverage(g, GEN_ACTIONS)
     maxops = 2 if quick else 3
     hists = []
@@ -56,7 +58,7 @@ def run(ctx):
         if len(st['hist']) == maxops:
             hists.append(st['hist'])
     total_exh = len(hists)
-    sim = ctx.tlc('SeriesFile', 'SeriesFile.Sim.cfg', timeout=900, simulate={'num': 120 if quick else 3000}, depth=9, workers=4)
+    sim = ctx.tlc('SeriesFile', 'SeriesFile.Sim.cfg', timeout=900, simulate={'num': 120 if quick else 3000}, depth=9)
     if sim.timed_out or not sim.ok:
         raise vlib.Inconclusive('simulation run failed: ' + sim.stdout[-1500:])
     seen = set()
@@ -89,7 +91,7 @@ def run(ctx):
             probes.append({'probe': True, 'pa': 7, 'pb': 7, 'ka': ['a'], 'kb': [], 'prefill': {'7': n7},
                            'sweepSample': 8 if quick else 400, 'conc': ctx.rng.randrange(5) + 5 * st + i})
     binary = ctx.go_build('seriesfile')
-    res, lines = ctx.replay(binary, cases + probes, timeout=2400, case_timeout='300s', procs=min(vlib.NCPU, 12),
+    res, lines = ctx.replay(binary, cases + probes, timeout=2400, case_timeout='300s', procs=vlib.NCPU,
                             env_extra={'GOMAXPROCS': '2'})
     ctx.absorb(res, lines)
     ctx.extra_cov.update({
